@@ -238,6 +238,10 @@ func (en *Engine) verifyUnit(u *UnitInfo) *UnitResult {
 	}
 	// own ghost and requires
 	for _, c := range spec.clauses("ghost") {
+		if u.Lit == nil {
+			// a ghost clause of a function: a mark it sets, or one rule of an inductively defined abstract predicate
+			x.assumed["ghost rule assumed at the entry of "+u.Name+": "+c.Src] = true
+		}
 		st.assume(x.cxBool(st, c.Expr, x.entry, nil))
 	}
 	for _, c := range spec.clauses("captured-inv") {
